@@ -1086,9 +1086,15 @@ class Index(IndexBase):
             other_is_array = True
 
         if operator.__name__ == 'matmul':
-            return matmul(values, other)
+            array = matmul(values, other)
         elif operator.__name__ == 'rmatmul':
-            return matmul(other, values)
+            array = matmul(other, values)
+        else:
+            array = None
+        if array is not None:
+            if array.__class__ is np.ndarray and array.ndim > 0:
+                array.flags.writeable = False
+            return array
 
         return apply_binary_operator(
                 values=values,
